@@ -121,8 +121,8 @@ class Patterns:
     """
     Helper patterns, the ones that aren't used at import time are defined lazy.
     """
-    whitespaces = re.compile(r'[^\S\xa0]+')  # include ASCII 160 (non-breaking space)
-    normalize = LazyPattern(r'[^\S\xa0]')
+    whitespaces = re.compile(r'[ \t\n\r]+')  # the white space characters of XML and XSD
+    normalize = LazyPattern(r'[ \t\n\r]')
     ncname = LazyPattern(r'^[^\d\W][\w.\-\u00B7\u0300-\u036F\u203F\u2040]*$')
     extended_qname = LazyPattern(
         r'^(?:Q{(?P<namespace>[^}]+)}|'
